@@ -14,7 +14,7 @@ from gearpy.units import (
     AngularAcceleration
 )
 from gearpy.utils import StopCondition
-import numpy as np
+from math import ceil
 from typing import Optional
 
 
@@ -192,22 +192,22 @@ class Solver:
             initial_time = self.__powertrain.time[-1].to(
                 time_discretization.unit
             )
-            final_time = initial_time + simulation_time + time_discretization
         else:
             initial_time = Time(value=0, unit=time_discretization.unit)
-            final_time = initial_time + simulation_time + time_discretization
             self.__powertrain_is_locked = False
             self.__powertrain.update_time(initial_time)
             self._compute_powertrain_variables(motor_control=motor_control)
 
-        for k in np.arange(
-            initial_time.value + time_discretization.value,
-            final_time.value,
-            time_discretization.value
-        ):
+        n_steps = ceil(round(simulation_time/time_discretization, 9))
+        for step in range(1, n_steps + 1):
 
             self.__powertrain.update_time(
-                Time(value=float(k), unit=time_discretization.unit)
+                Time(
+                    value=float(
+                        initial_time.value + step*time_discretization.value
+                    ),
+                    unit=time_discretization.unit
+                )
             )
             self._time_integration(time_discretization=time_discretization)
             self._compute_powertrain_variables(motor_control=motor_control)
